@@ -76,6 +76,10 @@ def snap_var(v):
         except Exception:
             fill = None
     attrs = _attrs_of(v)
+    if not any(a in attrs for a in ('fill_value', 'missing_value', '_FillValue')):
+        # numpy's own default fill of an array that declares none is set lazily (reading .fill_value of
+        # the source changes what a later reduction hands on): not part of the file
+        fill = None
     rv = RVar(tuple(v.dimensions), data, mask, attrs, fill=None, masked=masked)
     rv.fill = fill
     return rv
